@@ -9,21 +9,21 @@ Import ListNotations.
 (* a two-way request that no stage rejects yields, through the HTTP gateway and through JSON-RPC, the
    outcome it yields natively - the same reply payload or the same error text - and runs the same
    handler: all three front ends call the same handleRequest *)
-Theorem C19_http_ingress_equals_native : forall find codec_ok decodable handler ing c rq,
+Theorem C19_http_ingress_equals_native : forall find codec_ok decodable handler hmeta ing c rq,
   ing <> Native ->
   rejected ing c rq = false -> q_hb (i_q rq) = false -> q_oneway (i_q rq) = false ->
   find (q_path (i_q rq)) (q_meth (i_q rq)) <> TRouter ->
-  o_out (serve find codec_ok decodable handler ing c rq) = o_out (serve find codec_ok decodable handler Native c rq) /\
-  o_invoked (serve find codec_ok decodable handler ing c rq) = o_invoked (serve find codec_ok decodable handler Native c rq).
+  o_out (serve find codec_ok decodable handler hmeta ing c rq) = o_out (serve find codec_ok decodable handler hmeta Native c rq) /\
+  o_invoked (serve find codec_ok decodable handler hmeta ing c rq) = o_invoked (serve find codec_ok decodable handler hmeta Native c rq).
 Proof. exact http_ingress_equals_native. Qed.
 
 (* malformed gateway requests (missing service / method / serialization headers, non-numeric id or
    type, unparsable metadata) and malformed JSON-RPC methods are rejected with an error and never
    reach a handler *)
-Theorem C19_malformed_rejected : forall find codec_ok decodable handler ing c rq,
+Theorem C19_malformed_rejected : forall find codec_ok decodable handler hmeta ing c rq,
   ing <> Native -> i_malformed rq = true ->
-  o_invoked (serve find codec_ok decodable handler ing c rq) = [] /\
-  is_result (o_out (serve find codec_ok decodable handler ing c rq)) = false.
+  o_invoked (serve find codec_ok decodable handler hmeta ing c rq) = [] /\
+  is_result (o_out (serve find codec_ok decodable handler hmeta ing c rq)) = false.
 Proof. exact malformed_rejected. Qed.
 
 Print Assumptions C19_http_ingress_equals_native.
